@@ -1,5 +1,6 @@
 import Driver.Proto
 import Neutrino.Spec.BlockMgr
+import Neutrino.Gen.BlockMgr
 open Neutrino.BM
 namespace Driver.Drv.BlockMgr
 
@@ -19,6 +20,7 @@ def parseNode (s : String) : Node :=
 def parseNtfn (s : String) : Ntfn :=
   match s.splitOn ":" with
   | ["C", a, b, c] => .conn (nat! a) (nat! b) (nat! c)
+  | ["C", a, b, c, _] => .conn (nat! a) (nat! b) (nat! c)
   | ["D", a, b, c] => .disc (nat! a) (nat! b) (nat! c)
   | _ => .conn 999999 0 0
 
@@ -73,7 +75,9 @@ def parseDump (obs : String) : Dump :=
     hl := (get fs "hl").map parseNode, ncp := opt (get1 fs "ncp"), sync := nat! (get1 fs "sync"),
     cand := (get fs "cand").map nat!, htip := parseNode (get1 fs "htip"), ftip := parseNode (get1 fs "ftip"),
     disc := (get fs "disc").map nat!, lb := (get fs "lb").map (fun s => let n := parseNode s; (n.id, n.height)),
-    ntf := (get fs "ntf").map parseNtfn }
+    ntf := (get fs "ntf").map parseNtfn,
+    memAt := (get fs "ntf").map (fun x => match x.splitOn ":" with | [_, _, _, _, m] => nat! m | _ => 0),
+    pres := get1 fs "pres", pbest := nat! (get1 fs "pbest"), pbl := (get fs "pbl").map parseNode }
 
 def parseEv (ws : List String) : Option Ev :=
   match ws with
@@ -83,6 +87,7 @@ def parseEv (ws : List String) : Option Ev :=
   | ["inv", p, i] => some (.inv (nat! p) (nat! i))
   | "headers" :: p :: rest => some (.headers (nat! p) ((bracket rest).1.map nat!))
   | ["cfwrite", s, n, bad] => some (.cfWrite (nat! s) (nat! n) (bad == "0"))
+  | ["cfwrite", s, n, bad, _, _] => some (.cfWrite (nat! s) (nat! n) (bad == "0"))
   | ["backlog", h] => some (.backlog (nat! h))
   | _ => none
 
@@ -144,6 +149,10 @@ def runCase : CaseFn := fun c => Id.run do
         for f in c02 cfg ev prev d do out := out.push (fail "C02" f)
         if dumpGood cfg prev && dumpGood cfg d then
           for f in c19Event cfg.tbl ev prev d do out := out.push (fail "C19" f)
+          for f in c19TipCovers d do out := out.push (fail "C19" f)
+          match ws with
+          | ["cfwrite", _, _, _, k, h] => for f in c19Probe (nat! k) (nat! h) d do out := out.push (fail "C19" f)
+          | _ => pure ()
         -- subscribers: replay of backlog + later events reproduces the committed chain
         let mut subs' : List (Nat × List Nat) := []
         for (at_, view) in subs do
@@ -166,11 +175,30 @@ def runCase : CaseFn := fun c => Id.run do
         | _ => pure ()
         -- model
         if !diverged then
+          let stOld := st
           let (st', o) := step cfg st ev
           st := st'
           if let some txt := firstDiff (dumpOfState st o) d then
             for pid in ["C01", "C02", "C19"] do out := out.push s!"DIFF {pid} case {c.num} line {ln}: {op}: {txt}"
             diverged := true
+          else
+            -- inside the write: the tip each event saw, and the backlog a mid-batch subscriber got,
+            -- as the model predicts them from the statement order found in the source
+            let tipFirst := Neutrino.Gen.BlockMgr.cfTipBeforeNotify
+            let mTip := if tipFirst then st.ftip.height else stOld.ftip.height
+            let mMem := o.ntf.map (fun n => match n with | .conn .. => mTip | _ => 0)
+            if mMem != d.memAt.zipWith (fun (m : Nat) (n : Ntfn) => match n with | .conn .. => m | _ => 0) d.ntf then
+              out := out.push s!"DIFF C19 case {c.num} line {ln}: {op}: in-memory filter tip at each event model={mMem} impl={d.memAt}"
+              diverged := true
+            match ws with
+            | ["cfwrite", sid, n, _, k, h] =>
+              if d.pres == "ok" || d.pres == "err" then
+                let po := cfProbe tipFirst stOld (nat! sid) (nat! n) (nat! h)
+                let mres := if po.res == .ok then "ok" else "err"
+                if k != "0" && (mres != d.pres || (mres == "ok" && (po.best != d.pbest || po.bl != d.pbl))) then
+                  out := out.push s!"DIFF C19 case {c.num} line {ln}: {op}: backlog at event {k} model={mres} {po.best} {repr po.bl} impl={d.pres} {d.pbest} {repr d.pbl}"
+                  diverged := true
+            | _ => pure ()
     prev := d
   return out
 
